@@ -235,6 +235,8 @@ def check(ctx, R):
     R.run("C05.f", lambda R, c: c02.rule_g(R, c, "C05.f"), ctx)
     from . import preds
     R.run("C05.p", lambda R, c: preds.rule(R, c, "C05.p", ["is_missing", "map_contains_key"]), ctx)
+    from . import shared as _sh
+    R.run("C05.g", lambda R, c: _sh.unapplied_within_range(R, c, "C05.g"), ctx)
     R.run("C05.a", rule_a, ctx)
     R.run("C05.b", rule_b, ctx)
     R.run("C05.c", rule_c, ctx)
